@@ -168,12 +168,8 @@ impl RuleLT09 {
 
         if !newlines.is_empty() {
             let comment_after_select = children.select(
-                Some(|seg: &ErasedSegment| seg.is_type(SyntaxKind::Comment)),
-                Some(|seg| {
-                    seg.is_type(SyntaxKind::Comment)
-                        | seg.is_type(SyntaxKind::Whitespace)
-                        | seg.is_meta()
-                }),
+                Some(|seg: &ErasedSegment| seg.is_comment()),
+                None,
                 selects.get(0, None).as_ref(),
                 newlines.get(0, None).as_ref(),
             );
@@ -543,6 +539,10 @@ impl RuleLT09 {
                 insert_buff,
                 None,
             ));
+        } else {
+            // A comment directly after SELECT is not autofixed: moving the target up
+            // would put it inside the comment.
+            fixes.clear();
         }
 
         vec![LintResult::new(
